@@ -16,13 +16,18 @@ RULE = ("A pure sinusoid at fractional bin b0 of a length-L segment (1-4 segment
         "power at b relative to b0 must be <= -(P-1) dB + 20*log10(1+min(1, ml/d_img)), d_img the "
         "distance of b from the sinusoid's image line; an excess over the literal -(P-1) dB that "
         "stays inside this two-line bound is the known mechanism kaiser-two-line-superposition. "
-        "Cases whose float64 recurrence floor is above -(P+6) dB are not generated.  Distinct by "
+        "Cases whose float64 recurrence floor is above -(P+6) dB are not generated.  Every eighth "
+        "case takes the compute() route instead: a unit sinusoid through a scheduler's plan (N 4096.."
+        "20000, Lmin in {N, N/2, 4096, 512}, all four schedulers, both backends), each plan bin "
+        "judged against the line's own response (S1/2)^2 with the reference model's window sum.  "
+        "Distinct by "
         "case descriptor; every generated case is non-trivial.")
 ASSUMPTIONS = [
     "float64 floor of the Goertzel recurrence from the rounding budget of DESIGN section 3",
     "the (L, P, omega) envelope actually swept is listed in the evidence counters",
 ]
-DECIDING_COUNTERS = ["offsets_checked", "sinusoids", "corpus_replayed"]
+DECIDING_COUNTERS = ["offsets_checked", "sinusoids", "corpus_replayed", "plan_route_bins_checked",
+                     "plan_route_bins_with_odd_L_of_4096_or_more"]
 MIN_NONTRIVIAL = {"quick": 300, "thorough": 8000}
 JOBS = {"quick": 8, "thorough": 16}
 
@@ -150,6 +155,89 @@ def one_sinusoid(rec, seedt, tier, fixed=None):
             rec.violation("kaiser-two-line-superposition", msg)
 
 
+_S1 = {}
+
+
+def _s1(L, P):
+    key = (L, round(P, 9))
+    if key not in _S1:
+        if len(_S1) > 4000:
+            _S1.clear()
+        _S1[key] = float(np.sum(refmodel.window("kaiser", L, psll=P)))
+    return _S1[key]
+
+
+def plan_route(rec, seedt, tier):
+    """The same statement through compute(): a unit sinusoid analysed with a scheduler's plan.  Every
+    plan bin j sees the line at fractional bin f0*L_j/fs of its own segment length; where the
+    analysis bin is more than a main lobe away, its power relative to the line's own response
+    (S1_j/2)^2 (window sum from the reference model) must respect the same bound."""
+    from speckit.analysis import SpectrumAnalyzer
+    rng = gen.rng_for(*seedt)
+    P = float(rng.uniform(40, 200))
+    order = -1 if rng.random() < 0.7 else int(rng.choice([0, 1, 2]))
+    N = int(rng.choice([4097, 4099, 5001, 8193, 9001, int(rng.integers(4096, 20000)),
+                        int(2 * rng.integers(2048, 10000) + 1)]))
+    lm = str(rng.choice(["N", "half", "4k", "small"]))
+    Lmin = {"N": N, "half": N // 2, "4k": min(N, 4096), "small": 512}[lm]
+    sched = str(rng.choice(gen.SCHEDS))
+    backend = str(rng.choice(["numba", "numba", "numpy"]))
+    fs = float(rng.choice([1.0, 100.0]))
+    f0 = fs * float(rng.uniform(0.05, 0.45))
+    phase = float(rng.uniform(0, 2 * math.pi))
+    x = np.sin(2 * math.pi * f0 / fs * np.arange(N) + phase)
+    desc = {"kind": "plan-route", "seed": list(seedt), "N": N, "Lmin": Lmin, "P": round(P, 3),
+            "order": order, "sched": sched, "backend": backend, "tier": tier}
+    rec.case(desc, nontrivial=True)
+    alpha = refmodel.kaiser_alpha(P)
+    ml = math.sqrt(1 + alpha * alpha)
+    lo_f = 2 * ml if order >= 0 else ml
+    try:
+        r = SpectrumAnalyzer(x, fs, win="kaiser", psll=P, order=order, olap="default",
+                             scheduler=sched, Lmin=Lmin, Jdes=int(rng.choice([60, 150])),
+                             Kdes=int(rng.choice([1, 3])), backend=backend).compute()
+    except ValueError as e:
+        rec.blocked(f"analysis rejected: {e}")
+        return
+    rec.count("plan_route_sinusoids")
+    Ls = np.asarray(r.L, dtype=np.int64)
+    fj = np.asarray(r.f, dtype=float)
+    XX = np.asarray(r.XX, dtype=float)
+    for j in range(len(fj)):
+        L = int(Ls[j])
+        b0, b = f0 * L / fs, fj[j] * L / fs
+        off = b - b0
+        hi_b = L / 2 - ml
+        if abs(off) <= ml or b < lo_f or b > hi_b or b0 < lo_f or b0 > hi_b:
+            continue
+        om = 2 * math.pi * b / L
+        sn = abs(math.sin(om))
+        g = 0.5 * L * min(float(L), 1 / sn if sn > 0 else float(L)) + 64
+        if 20 * math.log10(2 * g * refmodel.U) > -(P + 6):
+            rec.count("skipped_float64_floor")
+            continue
+        p0 = (_s1(L, P) / 2) ** 2
+        rec.count("offsets_checked")
+        rec.count("plan_route_bins_checked")
+        if L >= 4096 and L % 2 == 1:
+            rec.count("plan_route_bins_with_odd_L_of_4096_or_more")
+        rec.distinct("LP_envelope", f"L={1 << int(math.log2(L))}+/P={int(P // 20) * 20}/plan")
+        rel_db = 10 * math.log10(max(XX[j], 1e-320) / p0)
+        d_img = min(abs(b + b0), abs(b - (L - b0)))
+        two_line = -(P - 1) + 20 * math.log10(1 + min(1.0, ml / max(d_img, 1e-9)))
+        rec.ratio("margin_to_two_line_bound_dB(neg=ok)", rel_db - two_line)
+        msg = (f"compute() with {sched}, N={N}, plan bin {j} (L={L}, K={int(r.K[j])}), P={P:.2f} dB "
+               f"(ml={ml:.2f}): unit sinusoid at bin {b0:.4f} of that segment length, analysed at "
+               f"{b:.4f} (offset {off:+.3f}, image distance {d_img:.2f}): response {rel_db:.2f} dB "
+               f"relative to the line; literal bound {-(P - 1):.2f} dB, two-line bound "
+               f"{two_line:.2f} dB; order {order}, backend {backend}")
+        if rel_db > two_line:
+            rec.violation("sidelobe-above-bound", msg)
+            return
+        elif rel_db > -(P - 1):
+            rec.violation("kaiser-two-line-superposition", msg)
+
+
 def run_shard(params, rec):
     if params["kind"] == "corpus":
         for c in CORPUS:
@@ -162,10 +250,14 @@ def run_shard(params, rec):
             rec.note(f"time budget reached after {i}")
             break
         one_sinusoid(rec, [params["seed"], params["shard"], i], params["tier"])
+        if i % 8 == 0:
+            plan_route(rec, [params["seed"], params["shard"], "plan", i], params["tier"])
 
 
 def replay(case, rec):
     if case.get("kind") == "corpus":
         one_sinusoid(rec, None, "quick", fixed=case)
+    elif case.get("kind") == "plan-route":
+        plan_route(rec, case["seed"], case.get("tier", "quick"))
     else:
         one_sinusoid(rec, case["seed"], case.get("tier", "quick"))
